@@ -224,6 +224,27 @@ class FastavroModel:
     def parse_schema(*a, **k):
         raise RuntimeError("model placeholder")
 
+    @staticmethod
+    def validate(*a, **k):
+        raise RuntimeError("model placeholder")
+
+
+def m_avro_validate(it, datum, schema, *a, **kw):
+    """fastavro.validate(datum, schema): True, or an error when some field of the record matches no branch of its type (nothing is written)"""
+    if not isinstance(datum, dict):
+        raise PyRaise(ValueError("record must be a mapping"))
+    for f in schema.get("fields", []):
+        v = datum.get(f["name"])
+        ts = f["type"] if isinstance(f["type"], list) else [f["type"]]
+        if isinstance(v, tuple) and len(v) == 2 and isinstance(v[0], str):
+            named = [t for t in ts if (t.get("type") if isinstance(t, dict) else t) == v[0]]
+            if not named or not avro_accepts(it, named[0], v[1]):
+                raise PyRaise(ValueError(f"value of field {f['name']!r} is not an example of the schema {ts!r}"))
+            continue
+        if not any(avro_accepts(it, t, v) for t in ts):
+            raise PyRaise(ValueError(f"{it.type_name(v)} value of field {f['name']!r} is not an example of the schema {ts!r}"))
+    return True
+
 
 # ------------------------------------------------------------------------------------------------------------------ csv
 class CsvRow:
@@ -658,6 +679,7 @@ def install(it):
     it.models[FastavroModel.write.Writer] = lambda it_, fp, schema, codec="null", validator=None, **kw: AvroWriter(it_, fp, schema, codec, validator)
     it.models[FastavroModel.reader] = lambda it_, fp, *a, **kw: AvroReaderModel(fp)
     it.models[FastavroModel.parse_schema] = lambda it_, schema, *a, **kw: schema
+    it.models[FastavroModel.validate] = m_avro_validate
 
     def m_open(it_, path, mode="r", *a, **kw):
         """builtins.open / io.open / gzip.GzipFile on the virtual file system of the obligation (Interp.vfs: path -> abstract file / database).
